@@ -1471,6 +1471,8 @@ func (state *pexState) add(p pex.Peer) {
 		if len(state.pendingDel) == 0 {
 			state.pendingDel = nil
 		}
+		// the peer was never announced as dropped
+		state.sent = append(state.sent, p)
 		return
 	}
 
